@@ -41,4 +41,23 @@ def unit_cnt(tier):
             "dropped": [], "lib": [], "paths": len(obs)}
 
 
-UNITS = {"cnt": unit_cnt}
+def unit_searchsorted(tier):
+    """searchsorted_hit (instances are added by the np.searchsorted contract in pyvc/lib.py for a strictly increasing S):
+    from  0 <= r <= n,  r > 0 => S[r-1] < v,  r < n => v <= S[r]  and strict monotonicity of S:  S[p] == v (0 <= p < n)  =>  r == p"""
+    S = z3.Function("S", IS, IS)
+    n, r, v, p, t, u = z3.Ints("n r v p t u")
+    mono = z3.ForAll([t, u], z3.Implies(z3.And(0 <= t, t < u, u < n), S(t) < S(u)))
+    clause = z3.And(0 <= r, r <= n, z3.Implies(r > 0, S(r - 1) < v), z3.Implies(r < n, v <= S(r)))
+    hit = [0 <= p, p < n, S(p) == v]
+    obs = []
+    for name, extra, goal in (("not_left_of_the_hit", [], r <= p), ("not_right_of_the_hit", [], r >= p)):
+        # split r < p / r > p so that the needed monotonicity instance is obvious to the solver
+        pc = [mono, clause] + hit
+        res = solve_one({"name": f"searchsorted_hit.{name}", "pc": pc, "goal": goal, "meta": {}}, timeout_ms=20000)
+        res["goal_text"] = str(goal)
+        obs.append(res)
+    return {"unit": "lemmas.searchsorted", "target": "np.searchsorted contract (pyvc/lib.py)", "kind": "lemma", "obligations": obs, "abstracted": [],
+            "dropped": [], "lib": [], "paths": len(obs)}
+
+
+UNITS = {"cnt": unit_cnt, "searchsorted": unit_searchsorted}
